@@ -139,12 +139,22 @@ def materialise(work, world):
             os.makedirs(os.path.join(d, "ups"))
             with open(os.path.join(d, "ups", name + ".table"), "w") as f:
                 f.write("\n".join(lines) + "\n")
+    # products whose versions are all declared with ONE table file kept outside the product directories and named by
+    # its absolute path (eups declare -m /abs/tables/name.table): world["shared_tables"] = [names]
+    shared = {}
+    for name in world.get("shared_tables", ()):
+        vs = world["products"][name]
+        os.makedirs(os.path.join(stack, "tables"), exist_ok=True)
+        shared[name] = os.path.join(stack, "tables", name + ".table")
+        with open(shared[name], "w") as f:
+            f.write("\n".join(vs[sorted(vs)[0]]) + "\n")
     for name, vs in world["products"].items():
         for v in sorted(vs):
             sys.modules["eups.db.Database"]._databases.clear()
             e = eups.Eups(quiet=1, flavor=flavor_of(world, name))
+            kw = {"tablefile": shared[name]} if name in shared else {}
             e.declare(name, v, os.path.join(stack, flavor_of(world, name), name, v),
-                      tag=("current" if world["current"].get(name) == v else None))
+                      tag=("current" if world["current"].get(name) == v else None), **kw)
             # the first declaration of a product is made current automatically: undo when not wanted
     for name in world["products"]:
         sys.modules["eups.db.Database"]._databases.clear()
@@ -155,6 +165,12 @@ def materialise(work, world):
             e.unassignTag("current", name)
             if want:
                 e.assignTag("current", name, want)
+    # other global tags (world["tags"] = {name: {tag: version}}; stable is one of the shipped global tags)
+    for name, tv in sorted(world.get("tags", {}).items()):
+        for t, v in sorted(tv.items()):
+            sys.modules["eups.db.Database"]._databases.clear()
+            e = eups.Eups(quiet=1, flavor=flavor_of(world, name))
+            e.assignTag(t, name, v)
     return stack, userdata
 
 
@@ -289,8 +305,20 @@ def run_cli(rq, holder):
     return ok, outcome, holder.get("eups") or _NoEups()
 
 
-def run_scenario(world, requests, env0):
-    """child: materialise the world, run the requests in sequence; returns per-request records"""
+def api_setup(e, rq, dbz):
+    """selectVRO and eups.app.setup on an Eups object the caller built; (ok, outcome, the command list as setupcmd would
+    print it)"""
+    import eups.app
+    e.selectVRO(rq.get("tag"), None, rq.get("version"), dbz)
+    cmds = eups.app.setup(rq["name"], rq.get("version"), eupsenv=e, fwd=rq.get("fwd", True))
+    ok = "false" not in cmds
+    return ok, "ok" if ok else "fail", ";\n".join(cmds) + "\n"
+
+
+def run_scenario(world, requests, env0, session=False):
+    """child: materialise the world, run the requests in sequence; returns per-request records.
+    session: ONE Eups instance serves all the requests (a long-lived process that uses the python interface: selectVRO
+    and Eups.setup once per request), instead of one instance per request"""
     common.import_eups()
     import eups
     work = common.scratch_dir("setup.")
@@ -319,8 +347,10 @@ def run_scenario(world, requests, env0):
         log, names, holder = [], [], {}
         install_decision_spy(log, names, holder)
         records = []
+        live = None
         for rq in requests:
-            sys.modules["eups.db.Database"]._databases.clear()
+            if not (session and live is not None):
+                sys.modules["eups.db.Database"]._databases.clear()
             os.environ.clear()
             os.environ.update(env)
             del log[:]
@@ -331,12 +361,32 @@ def run_scenario(world, requests, env0):
                 kw["keep"] = True
             if rq.get("max_depth") is not None:
                 kw["max_depth"] = rq["max_depth"]
-            if rq.get("cli"):
+            if session:
+                if live is None:
+                    live = eups.Eups(quiet=1)
+                e = live
+                alias_snap = dict(e.aliases)
+                try:
+                    e.selectVRO(rq.get("tag"), None, rq.get("version"), None)
+                    ok, version, reason = e.setup(rq["name"], rq.get("version"), fwd=rq.get("fwd", True),
+                                                  noRecursion=bool(rq.get("just")))
+                    outcome = "ok" if ok else "fail"
+                except Exception as ex:  # noqa
+                    ok, outcome = False, "raise:" + type(ex).__name__
+            elif rq.get("cli"):
                 # the request as the shell function hands it to eups_setup: setupcmd.EupsSetup translates the options
                 # (--just is --max-depth 0, whether setting up or unsetting up), builds the Eups object and calls
                 # eups.setup (app.py); the environment it computed is os.environ afterwards, the printed text is what
                 # the shell would source (false for a failure)
                 ok, outcome, e = run_cli(rq, holder)
+            elif rq.get("api"):
+                # the python interface that returns the command list: an Eups object built by the caller, selectVRO,
+                # eups.app.setup(name, version, eupsenv=, fwd=) - observe_at of C02
+                try:
+                    e = eups.Eups(quiet=1, **kw)
+                    ok, outcome, holder["text"] = api_setup(e, rq, None)
+                except Exception as ex:  # noqa
+                    ok, outcome, e = False, "raise:" + type(ex).__name__, _NoEups()
             else:
                 e = eups.Eups(quiet=1, **kw)
                 e.selectVRO(rq.get("tag"), None, rq.get("version"), None)
@@ -347,12 +397,21 @@ def run_scenario(world, requests, env0):
                 except Exception as ex:  # noqa
                     ok, outcome = False, "raise:" + type(ex).__name__
             after = dict(os.environ)
+            # Eups.setEupsPath rewrites EUPS_PATH in os.environ (normalised, entries that are no directories dropped)
+            # before Eups.oldEnviron is taken: the commands the shell sources never mention it, the variable of the
+            # shell is the one it had (the command list itself is judged by c02.shell_oracle)
+            if "EUPS_PATH" in before and after.get("EUPS_PATH") != before["EUPS_PATH"]:
+                after["EUPS_PATH"] = before["EUPS_PATH"]
             rec = {"request": rq, "before": before, "after": after if ok else before,
                    "raw_after": after, "aliases": dict(e.aliases), "old_aliases": sorted(e.oldAliases), "ok": bool(ok),
                    "outcome": outcome,
                    "decisions": list(log), "decision_names": list(names)}
-            if rq.get("cli"):
+            if rq.get("cli") or rq.get("api"):
                 rec["cmds"] = holder.get("text")      # what setupcmd printed for the shell: the command list of app.setup
+            if session:
+                # Eups.aliases of a long-lived instance accumulates: what THIS request defined is the difference
+                rec["aliases_all"] = rec["aliases"]
+                rec["aliases"] = {k: v for k, v in rec["aliases_all"].items() if alias_snap.get(k) != v}
             records.append(rec)
             if ok:
                 env = after
@@ -1510,6 +1569,14 @@ def run_scenario_ms(world, requests, env0):
             path_seen = None
             if rq.get("cli"):
                 ok, outcome, e = run_cli_ms(rq, roots, holder)
+            elif rq.get("api"):
+                try:
+                    e = eups.Eups(quiet=1, path=(":".join(roots[i] for i in rq["Z"]) if rq.get("Z") is not None else None),
+                                  dbz=rq.get("z"), **kw)
+                    ok, outcome, holder["text"] = api_setup(e, rq, rq.get("z"))
+                except Exception as ex:  # noqa
+                    ok, outcome = False, "raise:" + type(ex).__name__
+                    e = holder.get("eups") or _NoEups()
             else:
                 try:
                     e = eups.Eups(quiet=1, path=(":".join(roots[i] for i in rq["Z"]) if rq.get("Z") is not None else None),
@@ -1532,7 +1599,7 @@ def run_scenario_ms(world, requests, env0):
                    "raw_after": after, "aliases": dict(e.aliases), "old_aliases": sorted(e.oldAliases), "ok": bool(ok),
                    "outcome": outcome, "decisions": [d if d is None else list(d) for d in log],
                    "decision_names": list(names), "path_seen": path_seen}
-            if rq.get("cli"):
+            if rq.get("cli") or rq.get("api"):
                 rec["cmds"] = holder.get("text")
             records.append(rec)
             if ok:
@@ -2572,3 +2639,321 @@ def run_scenarios_local(ctx, scenarios, oracle, nproc=14):
         ctx.bump("real-code-only:product-set-up-from-a-directory")
         oracle(ctx, s, r[1])
     return results
+
+
+# ------------------------------------------------------------------ round 6: sessions on one instance, versions named like
+# tags, one table file for several versions, option words of dependency lines under --keep, csh command lists
+
+def run_scenario_session(world, requests, env0):
+    return run_scenario(world, requests, env0, session=True)
+
+
+def run_scenarios_basic(ctx, scenarios, oracle, runner=None, nproc=14):
+    """real runs, every request compared with the decision-fed model (coq/Model/Setup.v: a function of the environment
+    before and the decisions - it has no memory of earlier requests), then the oracle; for families whose worlds are
+    outside the composed and the text-fed models (version names that are tag names, sessions on one instance)"""
+    results = common.par_map(runner or run_scenario, [(s["world"], s["requests"], s["env0"]) for s in scenarios], nproc=nproc)
+    lines, meta = [], []
+    for s, r in zip(scenarios, results):
+        if r[0] != "ok":
+            raise RuntimeError("scenario child failed: %r" % (str(r)[-1500:],))
+        for rec in r[1]["records"]:
+            lines.append(model_line(s["world"], r[1], rec))
+            meta.append((s, r[1], rec))
+    for out, (s, r, rec) in zip(ctx.model(lines, pid="C01"), meta):
+        m = model_result(out)
+        if "aliases_all" in rec and m.get("ok"):
+            # a session: the aliases the model defines for the request are among the instance's, with the same values,
+            # and the ones the instance's table gained are among the model's
+            if all(rec["aliases_all"].get(k) == v for k, v in m["aliases"].items()) and \
+                    all(m["aliases"].get(k) == v for k, v in rec["aliases"].items()):
+                m["aliases"] = rec["aliases"]
+        compare(ctx, s["world"], r, rec, m)
+        ctx.traces_validated += 1
+    for s, r in zip(scenarios, results):
+        oracle(ctx, s, r[1])
+    return [r[1] for r in results]
+
+
+def run_scenarios_session(ctx, scenarios, oracle, nproc=14):
+    """every scenario twice: all its requests on ONE Eups instance (the session), and one instance per request (what the
+    command line does); oracle(ctx, scenario, session result, per-request result)"""
+    fresh = common.par_map(run_scenario, [(s["world"], s["requests"], s["env0"]) for s in scenarios], nproc=nproc)
+    for r in fresh:
+        if r[0] != "ok":
+            raise RuntimeError("scenario child failed: %r" % (str(r)[-1500:],))
+    it = iter(fresh)
+    return run_scenarios_basic(ctx, scenarios, lambda c, s, res: oracle(c, s, res, next(it)[1]), runner=run_scenario_session,
+                               nproc=nproc)
+
+
+def small_own(rng, n, rich=True):
+    up = n.upper()
+    out = ["envPrepend(PATH, ${PRODUCT_DIR}/bin)"]
+    if rng.random() < 0.6:
+        out.append("envSet(%s_HOME, ${PRODUCT_DIR}/home)" % up)
+    if rich and rng.random() < 0.4:
+        out.append("envAppend(LD_LIBRARY_PATH, ${PRODUCT_DIR}/lib)")
+    if rich and rng.random() < 0.3:
+        out.append("addAlias(run_%s, echo %s)" % (n, n))
+    return out
+
+
+def gen_scenario_session(rng, shape=None):
+    """2-4 requests served by ONE long-lived Eups instance (selectVRO + Eups.setup per request).  Shapes:
+      random             a world of gen_world; setups (bare / explicit version), unsetups of what an earlier request set
+                         up, a setup at the end
+      explicit-unsetup   setup lo <v> (version named; v is not the current one), unsetup lo, setup top - whose table (or
+                         the table of a product in between) asks for lo with a bare line
+      explicit-replace   setup lo <v>, setup lo <v'>, unsetup lo, setup top
+      explicit-bare      setup lo <v>, [unsetup lo,] setup lo (no version: the current one), [setup top]
+      dependent-first    setup top (lo comes in as current), unsetup top, setup lo <v> explicitly, setup top again"""
+    shape = shape or rng.choice(["random", "random", "explicit-unsetup", "explicit-unsetup", "explicit-replace", "dependent-first",
+                                 "explicit-bare"])
+    rq = lambda n, v=None, **k: dict({"name": n, "fwd": True}, **(dict(k, version=v) if v else k))
+    env0 = {"PATH": "/usr/bin:/bin"}
+    if rng.random() < 0.3:
+        env0["LD_LIBRARY_PATH"] = "/usr/lib"
+    if shape == "random":
+        w = gen_world(rng)
+        reqs, up = [], []
+        for _ in range(rng.choice([1, 2, 3])):
+            if up and rng.random() < 0.4:
+                reqs.append({"name": up.pop(rng.randrange(len(up))), "fwd": False})
+            else:
+                q = gen_request(rng, w, allow_fail=0.0)
+                reqs.append(q)
+                if q["name"] not in up:
+                    up.append(q["name"])
+        reqs.append(gen_request(rng, w, allow_fail=0.0))
+        w["family"] = "session:random"
+        return {"world": w, "requests": reqs, "env0": env0}
+    lo, mid, top = "p1", "p2", "p3"
+    vs = sorted(rng.sample(VERSIONS, rng.choice([2, 3])))
+    cur = rng.choice(vs)
+    others = [v for v in vs if v != cur]
+    prods = {lo: {v: small_own(rng, lo) for v in vs}}
+    via_mid = rng.random() < 0.4
+    kind = rng.choice(["setupRequired", "setupRequired", "setupOptional"])
+    if via_mid:
+        prods[mid] = {"1.0": small_own(rng, mid) + ["%s(%s)" % (kind, lo)]}
+        prods[top] = {"1.0": small_own(rng, top) + ["setupRequired(%s)" % mid]}
+    else:
+        prods[mid] = {"1.0": small_own(rng, mid)}
+        prods[top] = {"1.0": small_own(rng, top) + ["%s(%s)" % (kind, lo)] + (["setupRequired(%s)" % mid] if rng.random() < 0.5 else [])}
+    for n in (mid, top):
+        rng.shuffle(prods[n]["1.0"])
+    w = {"root": rng.choice(["stack", "stack", "stack dir"]), "products": prods, "current": {lo: cur, mid: "1.0", top: "1.0"},
+         "generic": [], "family": "session:" + shape}
+    v = rng.choice(others)
+    if shape == "explicit-unsetup":
+        reqs = [rq(lo, v), {"name": lo, "fwd": False}, rq(top)]
+    elif shape == "explicit-bare":
+        # the same product again at the top level, without a version (finding D63: the top-level product was resolved
+        # before the table of the previous request was forgotten)
+        reqs = [rq(lo, v)] + ([{"name": lo, "fwd": False}] if rng.random() < 0.6 else []) + [rq(lo)] + ([rq(top)] if rng.random() < 0.4 else [])
+    elif shape == "explicit-replace":
+        reqs = [rq(lo, v), rq(lo, rng.choice(vs)), {"name": lo, "fwd": False}, rq(top)]
+    else:
+        reqs = [rq(top), {"name": top, "fwd": False}, rq(lo, v), rq(top)]
+        if rng.random() < 0.5:
+            reqs.insert(3, {"name": lo, "fwd": False})
+            reqs = reqs[1:] if rng.random() < 0.3 else reqs
+            if not reqs[0].get("fwd", True):
+                reqs = reqs[1:]
+    return {"world": w, "requests": reqs, "env0": env0}
+
+
+def bare_only(res, name):
+    """is every dependency line that names the product a bare one (no version, no expression, no option word)?"""
+    for info in res["parsed"].values():
+        for a, li in zip(info["actions"], info.get("lines", [])):
+            if a.startswith("S,") and common.dec(a.split(",")[2]) == name and li != "-~-":
+                return False
+    return True
+
+
+TAG_NAMES = ["stable", "current", "latest"]
+
+
+def gen_scenario_tagnamed(rng, shape=None):
+    """a product one of whose versions is NAMED like a recognised tag (a version called stable / current / latest) while
+    that tag is assigned to ANOTHER version of the product; the versions have different dependencies (da / db); one of
+    the dependencies is also set up on its own.  Sequences (shape):
+      replace-below   [the dependency of the tagged version], foo <tag-named>, top (whose table asks for foo 3.0)
+      replace-top     the same, the last request being foo 3.0 itself
+      unsetup         ..., foo <tag-named>, unsetup foo
+      keep            ..., foo <tag-named>, top --keep"""
+    shape = shape or rng.choice(["replace-below", "replace-below", "replace-top", "unsetup", "keep"])
+    t = rng.choice(TAG_NAMES[:2] if rng.random() < 0.85 else TAG_NAMES)
+    foo, da, db, top = rng.choice(["foo", "p2"]), "da", "db", "top"
+    tagged = rng.choice(["2.0", "1.0"])
+    third = "3.0"
+    deps = {t: da, tagged: db, third: rng.choice([da, da, db])}
+    prods = {da: {"1.0": small_own(rng, da)}, db: {"1.0": small_own(rng, db)},
+             foo: {v: small_own(rng, foo, rich=False) + ["setupRequired(%s%s)" % (deps[v], rng.choice(["", " 1.0"]))] for v in (t, tagged, third)},
+             top: {"1.0": small_own(rng, top) + ["setupRequired(%s %s)" % (foo, third)]}}
+    cur = {da: "1.0", db: "1.0", top: "1.0"}
+    tags = {}
+    if t == "current":
+        cur[foo] = tagged
+    else:
+        tags[foo] = {t: tagged}
+        if t == "stable" and rng.random() < 0.5:
+            cur[foo] = third
+    w = {"root": rng.choice(["stack", "stack", "stack dir"]), "products": prods, "current": cur, "generic": [],
+         "tags": tags, "family": "tag-named-version:" + shape}
+    rq = lambda n, v=None, **k: dict({"name": n, "fwd": True}, **(dict(k, version=v) if v else k))
+    pre = [rq(db)] if rng.random() < 0.8 else []
+    if rng.random() < 0.3:
+        pre.append(rq(da))
+    reqs = pre + [rq(foo, t)]
+    if shape == "replace-below":
+        reqs.append(rq(top))
+    elif shape == "replace-top":
+        reqs.append(rq(foo, third))
+    elif shape == "unsetup":
+        reqs.append({"name": foo, "fwd": False})
+    else:
+        reqs.append(rq(top, keep=True))
+    if rng.random() < 0.3:
+        for q in reqs:
+            q["cli"] = True
+    return {"world": w, "requests": reqs, "env0": {"PATH": "/usr/bin:/bin"}}
+
+
+def reach_by_versions(res, rec):
+    """the products a request can reach, read off the versions that matter: the requested product; below a product, the
+    dependency lines of the versions of it that the request DECIDED on (successful branches and failed ones alike) and
+    of the version that was set up before the request (the one an unsetup or a replacement undoes).  A version that is
+    neither set up nor asked for contributes nothing: its table is not read.  (setupsim.touched_names takes the lines of
+    every declared version; this is the same walk over fewer tables.)"""
+    rq = rec["request"]
+    md, just = model_opts(rq)
+    budget = 0 if just else (None if md is None or md < 0 else md)
+    before = setup_records(rec["before"])
+    decided = {}
+    for n, v in zip(rec["decision_names"], rec["decisions"]):
+        if v is not None:
+            decided.setdefault(n, set()).add(v)
+    reached, expand, todo = set([rq["name"]]), {rq["name"]: 0}, [rq["name"]]
+    while todo:
+        n = todo.pop()
+        d = expand[n]
+        if budget is not None and d >= budget:
+            continue
+        vs = set(decided.get(n, ()))
+        if n in before:
+            vs.add(before[n])
+        for v in vs:
+            info = res["parsed"].get("%s %s" % (n, v))
+            for a in (info["actions"] if info else ()):
+                if a.startswith("S,"):
+                    f = a.split(",")
+                    m, j = common.dec(f[2]), f[3] == "1"
+                    reached.add(m)
+                    if not j and (m not in expand or expand[m] > d + 1):
+                        expand[m] = d + 1
+                        todo.append(m)
+    return reached
+
+
+def gen_scenario_shared_table(rng, shape=None):
+    """a product whose versions are all declared with ONE table file, kept outside the product directories and named by
+    its absolute path (eups declare -m /abs/tables/c.table): the table is expanded per product (PRODUCT_DIR,
+    PRODUCT_VERSION, the directory variable spelled out).  One version is set up, then replaced by another - directly,
+    or as the dependency of another product - or unset up; both versions may be met in one request (diamond)."""
+    shape = shape or rng.choice(["replace-direct", "replace-below", "replace-below", "unsetup", "diamond"])
+    c, a, b = "p1", "p2", "p3"
+    up = c.upper()
+    vs = sorted(rng.sample(VERSIONS, rng.choice([2, 3])))
+    pd = "${PRODUCT_DIR}" if rng.random() < 0.7 else "${%s_DIR}" % up
+    lines = ["envPrepend(PATH, %s/bin)" % pd]
+    if rng.random() < 0.6:
+        lines.append("envSet(%s_DATA, %s/data/${PRODUCT_VERSION})" % (up, pd))
+    if rng.random() < 0.4:
+        lines.append("envSet(%s_VERSION_SEEN, ${PRODUCT_VERSION})" % up)
+    if rng.random() < 0.4:
+        lines.append("envAppend(LD_LIBRARY_PATH, ${PRODUCT_DIR}/lib)")
+    if rng.random() < 0.3:
+        lines.append("addAlias(run_%s, echo %s ${PRODUCT_VERSION})" % (c, c))
+    rng.shuffle(lines)
+    cur = rng.choice(vs)
+    v0 = rng.choice([v for v in vs if v != cur])
+    prods = {c: {v: list(lines) for v in vs},
+             a: {"1.0": small_own(rng, a) + ["setupRequired(%s)" % c]},
+             b: {"1.0": small_own(rng, b) + ["setupRequired(%s %s)" % (c, v0), "setupRequired(%s)" % a]}}
+    w = {"root": rng.choice(["stack", "stack", "stack dir"]), "products": prods, "current": {c: cur, a: "1.0", b: "1.0"},
+         "generic": [], "shared_tables": [c], "family": "shared-table:" + shape}
+    rq = lambda n, v=None, **k: dict({"name": n, "fwd": True}, **(dict(k, version=v) if v else k))
+    if shape == "replace-direct":
+        reqs = [rq(c, v0), rq(c, cur) if rng.random() < 0.5 else rq(c)]
+    elif shape == "replace-below":
+        reqs = [rq(c, v0), rq(a)]
+    elif shape == "unsetup":
+        reqs = [rq(c, v0), rq(c, cur), {"name": c, "fwd": False}]
+    else:
+        reqs = [rq(b)] if rng.random() < 0.5 else [rq(c, cur), rq(b)]
+    if rng.random() < 0.3:
+        for q in reqs:
+            q["cli"] = True
+    return {"world": w, "requests": reqs, "env0": {"PATH": "/usr/bin:/bin"}}
+
+
+def expand_shared_line_value(val, name, version, d):
+    """what a value of the generator's table text stands for in the product (name, version) installed in d: the
+    variables Table.expandEupsVariables replaces, substituted by hand"""
+    return val.replace("${PRODUCT_DIR}", d).replace("${%s_DIR}" % name.upper(), d).replace("${PRODUCT_VERSION}", version)
+
+
+def shared_table_contributions(world, name, version, d):
+    """(path elements [(var, elem)], variables {var: value}) that the generator's text of the shared table gives the
+    product version - independent of the table parser and of any table the code keeps in memory"""
+    import re
+    paths, sets = [], {}
+    for l in world["products"][name][version]:
+        m = re.match(r"(envPrepend|envAppend)\((\w+), ([^,)]+)", l)
+        if m:
+            paths.append((m.group(2), expand_shared_line_value(m.group(3).strip(), name, version, d)))
+        m = re.match(r"envSet\((\w+), ([^,)]+)\)", l)
+        if m:
+            sets[m.group(1)] = expand_shared_line_value(m.group(2).strip(), name, version, d)
+    return paths, sets
+
+
+# ---- the csh dialect of the command list (EUPS_SHELL = csh / tcsh): setenv N V, unsetenv N, alias N 'body', unalias N;
+# variables and aliases are separate name spaces
+
+def csh_apply(text, env, aliases):
+    """the environment (and alias table) of a csh that starts with env / aliases and sources text; None when a command is
+    not one of the forms above"""
+    import re
+    env = dict(env)
+    for cmd in text.split(";\n"):
+        cmd = cmd.strip()
+        if not cmd:
+            continue
+        if cmd == "false":
+            return env
+        m = re.match(r"setenv ([A-Za-z_][A-Za-z_0-9]*) (.*)$", cmd, re.S)
+        if m:
+            env[m.group(1)] = shell_word(m.group(2))
+            continue
+        m = re.match(r"setenv ([A-Za-z_][A-Za-z_0-9]*) ?$", cmd)
+        if m:
+            env[m.group(1)] = ""
+            continue
+        m = re.match(r"unsetenv ([A-Za-z_][A-Za-z_0-9]*)$", cmd)
+        if m:
+            env.pop(m.group(1), None)          # (of a name that is no environment variable: nothing happens)
+            continue
+        m = re.match(r"unalias ([A-Za-z_][A-Za-z_0-9]*)$", cmd)
+        if m:
+            aliases.pop(m.group(1), None)
+            continue
+        m = re.match(r"alias ([A-Za-z_][A-Za-z_0-9]*) '(.*)'$", cmd, re.S)
+        if m:
+            aliases[m.group(1)] = m.group(2)
+            continue
+        return None
+    return env
